@@ -109,31 +109,33 @@ func (g *Grammar) instantiate(s *Sig, f func(params []*Ty, ret *Ty)) {
 	rec(0)
 }
 
-// SigmaGrammar: the grammar of the exhaustive space.  host selects the field
-// order of the types of o / oo (programs are the same texts either way; only
-// the annotation differs, so the grammar is built over the raw Γ).
-func SigmaGrammar(withBoundaryLits bool) *Grammar {
-	LN, LS, LO := ListOf(TNum), ListOf(TStr), ListOf(tyO)
-	MSN := MapOf(TStr, TNum)
-	MN := MaybeOf(TNum)
-	LBot, MBot := ListOf(TBot), MapOf(TBot, TBot)
+// NewGrammar builds the grammar over a type universe U and an environment:
+// variables and the literal pool as leaves; every instantiation (within U) of
+// every registered function / operator; list, map and object literals (every
+// field order) of the literal-able types of U; member and subscript access.
+func NewGrammar(U []*Ty, gamma Gamma, order []string) *Grammar {
 	g := &Grammar{
-		U:      []*Ty{TBool, TNum, TStr, TTime, LN, LS, LO, MSN, tyO, tyOO, MN, LBot, MBot},
+		U:      U,
 		byRes:  map[string][]*prod{},
 		leaves: map[string][]*Term{},
 		memo:   map[string][][]*Term{},
 	}
-	gamma := sigmaGamma(false)
-	for _, n := range sigmaOrder {
-		g.leaf(gamma[n], Var(n))
+	for _, n := range order {
+		if g.inU(gamma[n]) {
+			g.leaf(gamma[n], Var(n))
+		}
 	}
 	g.leaf(TNum, Num("0"), Num("1"), Num("2.5"))
 	g.leaf(TStr, Str(`"a"`), Str(`"é"`))
 	g.leaf(TBool, Bool(true), Bool(false))
 	g.leaf(TTime, TimeLit("2021-01-02 03:04:05"), TimeLit("2000-01-01"))
-	g.leaf(LBot, List())
-	g.leaf(MBot, MapLit())
-
+	LBot, MBot := ListOf(TBot), MapOf(TBot, TBot)
+	if g.inU(LBot) {
+		g.leaf(LBot, List())
+	}
+	if g.inU(MBot) {
+		g.leaf(MBot, MapLit())
+	}
 	// applications of every registered function / operator
 	for _, s := range sigList {
 		s := s
@@ -141,52 +143,68 @@ func SigmaGrammar(withBoundaryLits bool) *Grammar {
 			g.add(&prod{Res: r, Kids: ps, W: 3, Build: func(k []*Term) *Term { return Call(s.Name, k...) }})
 		})
 	}
-	// list literals
-	for _, el := range []*Ty{TNum, TStr, tyO} {
-		for n := 1; n <= 3; n++ {
-			kids := make([]*Ty, n)
-			for i := range kids {
-				kids[i] = el
+	for _, ty := range U {
+		ty := ty
+		switch ty.K {
+		case KList:
+			if ty.El.K == KBot || !g.inU(ty.El) {
+				continue
 			}
-			g.add(&prod{Res: ListOf(el), Kids: kids, Build: func(k []*Term) *Term { return List(k...) }})
-		}
-	}
-	// map literals
-	for n := 1; n <= 2; n++ {
-		kids := make([]*Ty, 0, 2*n)
-		for i := 0; i < n; i++ {
-			kids = append(kids, TStr, TNum)
-		}
-		g.add(&prod{Res: MSN, Kids: kids, Build: func(k []*Term) *Term { return MapLit(k...) }})
-	}
-	// object literals, every field order
-	objLit := func(res *Ty) {
-		perms(len(res.Fs), func(p []int) {
-			p = append([]int{}, p...)
-			kids := make([]*Ty, len(p))
-			names := make([]string, len(p))
-			for i, j := range p {
-				kids[i] = res.Fs[j].T
-				names[i] = res.Fs[j].Name
+			for n := 1; n <= 3; n++ {
+				kids := make([]*Ty, n)
+				for i := range kids {
+					kids[i] = ty.El
+				}
+				g.add(&prod{Res: ty, Kids: kids, Build: func(k []*Term) *Term { return List(k...) }})
 			}
-			g.add(&prod{Res: res, Kids: kids, W: 2, Build: func(k []*Term) *Term { return ObjLit(names, k) }})
-		})
-	}
-	objLit(tyO)
-	objLit(tyOO)
-	// member access
-	for _, ot := range []*Ty{tyO, tyOO} {
-		for _, f := range ot.Fs {
-			f := f
-			g.add(&prod{Res: f.T, Kids: []*Ty{ot}, W: 3, Build: func(k []*Term) *Term { return Member(k[0], f.Name) }})
+			g.add(&prod{Res: ty.El, Kids: []*Ty{ty, TNum}, W: 3, Build: func(k []*Term) *Term { return Sub(k[0], k[1]) }})
+		case KMap:
+			if ty.Key.K == KBot || !g.inU(ty.El) {
+				continue
+			}
+			for n := 1; n <= 2; n++ {
+				kids := make([]*Ty, 0, 2*n)
+				for i := 0; i < n; i++ {
+					kids = append(kids, ty.Key, ty.El)
+				}
+				g.add(&prod{Res: ty, Kids: kids, Build: func(k []*Term) *Term { return MapLit(k...) }})
+			}
+			g.add(&prod{Res: ty.El, Kids: []*Ty{ty, ty.Key}, W: 3, Build: func(k []*Term) *Term { return Sub(k[0], k[1]) }})
+		case KObj:
+			ok := true
+			for _, f := range ty.Fs {
+				if !g.inU(f.T) {
+					ok = false
+				}
+			}
+			if !ok {
+				continue
+			}
+			perms(len(ty.Fs), func(p []int) {
+				p = append([]int{}, p...)
+				kids := make([]*Ty, len(p))
+				names := make([]string, len(p))
+				for i, j := range p {
+					kids[i] = ty.Fs[j].T
+					names[i] = ty.Fs[j].Name
+				}
+				g.add(&prod{Res: ty, Kids: kids, W: 2, Build: func(k []*Term) *Term { return ObjLit(names, k) }})
+			})
+			for _, f := range ty.Fs {
+				f := f
+				g.add(&prod{Res: f.T, Kids: []*Ty{ty}, W: 3, Build: func(k []*Term) *Term { return Member(k[0], f.Name) }})
+			}
 		}
 	}
-	// subscripts
-	for _, lt := range []*Ty{LN, LS, LO} {
-		g.add(&prod{Res: lt.El, Kids: []*Ty{lt, TNum}, W: 3, Build: func(k []*Term) *Term { return Sub(k[0], k[1]) }})
-	}
-	g.add(&prod{Res: TNum, Kids: []*Ty{MSN, TStr}, W: 3, Build: func(k []*Term) *Term { return Sub(k[0], k[1]) }})
 	return g
+}
+
+// SigmaGrammar: the grammar of the exhaustive space over Σ (built over the
+// raw Γ; the programs are the same texts for the host environments).
+func SigmaGrammar(withBoundaryLits bool) *Grammar {
+	LN, LS, LO := ListOf(TNum), ListOf(TStr), ListOf(tyO)
+	U := []*Ty{TBool, TNum, TStr, TTime, LN, LS, LO, MapOf(TStr, TNum), tyO, tyOO, MaybeOf(TNum), ListOf(TBot), MapOf(TBot, TBot)}
+	return NewGrammar(U, sigmaGamma(false), sigmaOrder)
 }
 
 func perms(n int, f func([]int)) {
